@@ -89,6 +89,9 @@ class XmlGenerator(TreeListener):
         self.xml[tree] = E("apply", *[self.xml[arg] for arg in tree.arguments], builtin=tree.name)
 
     def exitWhenEquation(self, tree: ast.WhenEquation):
+        if len(tree.blocks) > 1:
+            # Only the first branch has an XML image; dropping the others would change the model.
+            raise NotImplementedError("elsewhen branches are not supported by the XML backend")
         self.xml[tree] = E(
             "when",
             E(
